@@ -309,6 +309,49 @@ def typedNormal (T : MesgTable) (fac : Nat → Field) (o : Options) (m : Message
       ++ m.fields.filter (fun f => !stored T f)
     devFields := if T.hasDev then m.devFields else [] }
 
+/-! ### what the property demands where the generated code does less (known findings KF-C13-1, KF-C13-2)
+
+`typedNormal` is what the code does. Two things it does are NOT what the property says ("the same known fields …, the
+same unknown fields …, and keeps the expanded-field marks"; "fields with arbitrary numbers … are kept as unknown fields"):
+
+* **KF-C13-1** a field that carries a name (`Name != "unknown"`) and a number below the struct's bound which the message
+  type does not define (file_id 6, record 200) is stored into `vals[num]` and never read again: it is silently dropped —
+  although the very same field is kept in `UnknownFields` when its number lies above the bound or its name is "unknown";
+* **KF-C13-2** the expanded mark of a known field that is not a component target (record.heart_rate) is recorded by
+  `Reset` (`IsExpandedField(3)` answers true) but `ToMesg` neither copies it to the emitted field nor honours it when
+  expanded fields are to be left out.
+
+`typedNormalFull` is the message the property demands; it equals `typedNormal` outside the two classes. -/
+
+/-- the field is stored by Reset under a number that no slot of the struct reads (class KF-C13-1) -/
+def foreign (T : MesgTable) (f : Field) : Bool :=
+  stored T f && !T.slots.any (fun s => numIs s.num f)
+
+/-- the field is stored, flagged as expanded, and its number is a slot that is not eligible for the bitmap (class KF-C13-2) -/
+def strayMark (T : MesgTable) (f : Field) : Bool :=
+  stored T f && f.isExpanded && T.slots.any (fun s => numIs s.num f && !s.canExpand)
+
+def hasForeign (T : MesgTable) (m : Message) : Bool := m.fields.any (foreign T)
+def hasStrayMark (T : MesgTable) (m : Message) : Bool := m.fields.any (strayMark T)
+
+/-- **what the property demands of message → struct → message**: as `typedNormal`, but every field the struct has no slot
+for is kept with the unknown fields (in order), and the expanded mark of EVERY known field is kept (the field is dropped
+when it is marked and expanded fields are not to be included). -/
+def typedNormalFull (T : MesgTable) (fac : Nat → Field) (o : Options) (m : Message) : Message :=
+  { num := T.num
+    fields := (T.slots.filterMap fun s =>
+        match specVal s (lastStored T m.fields s.num) with
+        | none => none
+        | some v =>
+          if s.canExpand then
+            let ex := s.num < T.markBound && anyMarked T m.fields s.num
+            if ex && !o.includeExpanded then none else some { fac s.num with value := v, isExpanded := ex }
+          else if anyMarked T m.fields s.num then
+            (if o.includeExpanded then some { fac s.num with value := v, isExpanded := true } else none)
+          else some { fac s.num with value := v })
+      ++ m.fields.filter (fun f => !stored T f || foreign T f)
+    devFields := if T.hasDev then m.devFields else [] }
+
 /-! ### well-formedness of a table (decidable; kernel-checked on the regenerated tables) -/
 
 def isScalarType (t : Nat) : Bool := typeBool ≤ t && t ≤ typeFloat64
